@@ -19,7 +19,7 @@
 
 use super::*;
 
-const MAXR: usize = 4;
+const MAXR: usize = 6; // array capacity of the view; quick harnesses bound the table at 4, thorough at 6
 
 #[derive(Clone, Copy)]
 struct View {
@@ -41,8 +41,12 @@ fn view(a: &RegisterAllocator) -> View {
 
 /// Any allocator state satisfying the invariant, with at most MAXR entries.
 fn any_allocator() -> RegisterAllocator {
+    any_allocator_upto(4)
+}
+
+fn any_allocator_upto(limit: usize) -> RegisterAllocator {
     let n: usize = kani::any();
-    kani::assume(n <= MAXR);
+    kani::assume(n <= limit);
     let mut a = RegisterAllocator::default();
     let mut i = 0;
     while i < n {
@@ -69,13 +73,13 @@ fn least_free(v: &View) -> usize {
 // FN: RegisterAllocator::alloc
 // ALSO: C02
 #[kani::proof]
-#[kani::unwind(7)]
+#[kani::unwind(9)]
 fn c03_register_alloc() {
     let mut a = any_allocator();
     let before = view(&a);
     let want = least_free(&before);
     kani::cover!(want < before.len && want > 0);
-    kani::cover!(want == before.len && before.len == MAXR);
+    kani::cover!(want == before.len && before.len == 4);
     let r = a.alloc();
     let after = view(&a);
     assert!(r.index() as usize == want);
@@ -95,7 +99,7 @@ fn c03_register_alloc() {
 // BOUND: register table of at most 4 entries before the call
 // FN: RegisterAllocator::alloc_persistent
 #[kani::proof]
-#[kani::unwind(7)]
+#[kani::unwind(9)]
 fn c03_register_alloc_persistent() {
     let mut a = any_allocator();
     let before = view(&a);
@@ -118,7 +122,7 @@ fn c03_register_alloc_persistent() {
 // FN: RegisterAllocator::dealloc, RegisterAllocator::alloc
 // ALSO: C02
 #[kani::proof]
-#[kani::unwind(7)]
+#[kani::unwind(9)]
 fn c03_register_dealloc() {
     let mut a = any_allocator();
     let r = a.alloc();
@@ -146,7 +150,7 @@ fn c03_register_dealloc() {
 // ALSO: C02
 #[kani::proof]
 #[kani::should_panic]
-#[kani::unwind(7)]
+#[kani::unwind(9)]
 fn c03_register_dealloc_persistent_panics() {
     let mut a = any_allocator();
     let r = a.alloc_persistent();
@@ -160,7 +164,7 @@ fn c03_register_dealloc_persistent_panics() {
 // FN: RegisterAllocator::finish, RegisterAllocator::alloc, RegisterAllocator::dealloc
 // ALSO: C02
 #[kani::proof]
-#[kani::unwind(7)]
+#[kani::unwind(9)]
 fn c03_register_count_bounds_every_operand() {
     let mut a = RegisterAllocator::default();
     let r0 = a.alloc();
@@ -185,8 +189,35 @@ fn c03_register_count_bounds_every_operand() {
     assert!(ki < count && pi < count && r3i < count);
 }
 
+
+/// Thorough tier: `alloc` / `dealloc` on tables of up to 6 entries.
+// BOUND: register table of at most 6 entries before the call
+// FN: RegisterAllocator::alloc, RegisterAllocator::dealloc
 #[kani::proof]
-#[kani::unwind(7)]
+#[kani::unwind(9)]
+fn c03x_register_alloc_dealloc_6() {
+    let mut a = any_allocator_upto(6);
+    let before = view(&a);
+    let want = least_free(&before);
+    kani::cover!(want == 5 && before.len == 6);
+    kani::cover!(want == before.len && before.len == 6);
+    let r = a.alloc();
+    let mid = view(&a);
+    assert!(r.index() as usize == want);
+    assert!(want == before.len || (!before.used[want] && !before.pers[want]));
+    assert!(mid.len == if want == before.len { before.len + 1 } else { before.len });
+    assert!(mid.used[want] && !mid.pers[want]);
+    let j: usize = kani::any();
+    kani::assume(j < before.len && j != want);
+    assert!(mid.used[j] == before.used[j] && mid.pers[j] == before.pers[j]);
+    a.dealloc(r);
+    let after = view(&a);
+    assert!(after.len == mid.len && !after.used[want]);
+    assert!(after.used[j] == before.used[j] && after.pers[j] == before.pers[j]);
+}
+
+#[kani::proof]
+#[kani::unwind(9)]
 fn c03_register_canary_must_fail() {
     let _a = any_allocator();
     assert!(false, "canary");
